@@ -443,6 +443,10 @@ where
         let mut outs: Vec<Vec<u8>> = vec![];
         for fill in [2usize, 0, 1] {
             let mut r = vclone(&r0);
+            if acc == 0 && !c.op.is_assign() {
+                // overwriting forms: the prior content of the result is not an input either
+                garbage(r.data.as_mut_slice(), fill);
+            }
             let mut issues: Vec<String> = vec![];
             let o = Opts { garbage: fill, scratch: ScratchMode::Exact(fill), seed };
             let res = guarded(|| {
@@ -486,7 +490,7 @@ where
         if outs.iter().any(|x| *x != outs[0]) {
             rec.fail(json!({"op": format!("{:?}", c.op), "backend": B::NAME, "kind": "scratch_dependent_result", "case": c,
                 "inner": {"block": blk, "scratch_bytes": own_bytes},
-                "why": "result bytes differ between scratch windows pre-filled with zeros, the NaN pattern and large values"}));
+                "why": "result bytes differ between runs whose scratch window (and, for overwriting forms, result buffer) was pre-filled with zeros, the NaN pattern and large values"}));
             return;
         }
         rec.outcome(fnv(&outs[0]));
@@ -645,7 +649,131 @@ pub fn cases<B: Bk>(tier: Tier) -> Vec<Case> {
             }
         }
     }
+    // --- wide i128 accumulators (NTT120 family): the high 64-bit word of a carry only matters for |a_j| well above
+    // 2^64 and comes back into a digit after several limbs; every signed offset, result sizes up to the reach of the carry
+    if B::FAMILY == crate::be::Family::Ntt120 {
+        for &op in ops.iter().filter(|o| o.is_big()) {
+            for &b in tier.pick(&[40usize, 52][..], &[12usize, 17, 31, 33, 40, 52, 61][..]) {
+                let reach = 128usize.div_ceil(b).min(6);
+                for a_size in 1..=3usize {
+                    for r_size in [1usize, 2, 3, 4, reach] {
+                        for offset in op.offsets(a_size * b, b, r_size) {
+                            out.push(Case {
+                                op,
+                                backend: B::NAME.into(),
+                                b_in: b,
+                                b_out: b,
+                                a_size,
+                                r_size,
+                                offset,
+                                alphabet: "boundary".into(),
+                                n: 64,
+                            });
+                        }
+                    }
+                }
+            }
+        }
+        out.sort_by_key(|c| format!("{:?}", c));
+        out.dedup_by_key(|c| format!("{:?}", c));
+    }
     out
+}
+
+/// the same case on two backends: result bytes must be identical (C10)
+pub fn exec_cmp<B1: Bk, B2: Bk>(c: &Case, seed: u64, rec: &mut Rec)
+where
+    Module<B1>: HalAll<B1>,
+    Module<B2>: HalAll<B2>,
+{
+    fn run_on<B: Bk>(c: &Case, seed: u64) -> Result<Vec<Vec<u8>>, String>
+    where
+        Module<B>: HalAll<B>,
+    {
+        let n = c.n;
+        let m = B::module(n);
+        let mref: &Module<B> = &m;
+        // the tuples must not depend on which backend of the family the case was generated for
+        let cc = Case { backend: if c.backend.starts_with("ntt120") { "ntt120".into() } else { "fft64".into() }, ..c.clone() };
+        let ts = tuples(&cc, seed);
+        let nblocks = ts.len().div_ceil(n);
+        let mut rng = Rng::new(seed, fnv(format!("{:?}", cc).as_bytes()));
+        let k = c.offset.unsigned_abs() as usize;
+        let acc = c.op.accumulates();
+        let mut outs = vec![];
+        for blk in 0..nblocks {
+            let lo = blk * n;
+            let hi = (lo + n).min(ts.len());
+            let mut a = VecZnx::alloc(n, 1, c.a_size);
+            let mut abig: Option<BigBuf<B>> = None;
+            if c.op.is_big() {
+                let mut bb = big_alloc::<B>(mref, 1, c.a_size);
+                for j in 0..c.a_size {
+                    let xs: Vec<i128> = (0..n).map(|i| if lo + i < hi { ts[lo + i][j] } else { 0 }).collect();
+                    bb.set(0, j, &xs);
+                }
+                abig = Some(bb);
+            } else {
+                for j in 0..c.a_size {
+                    let s = a.at_mut(0, j);
+                    for i in 0..n {
+                        s[i] = if lo + i < hi { ts[lo + i][j] as i64 } else { 0 };
+                    }
+                }
+            }
+            let mut r = VecZnx::alloc(n, 1, c.r_size);
+            if c.op.is_assign() {
+                r = vclone(&a);
+            } else if acc != 0 {
+                for j in 0..c.r_size {
+                    for x in r.at_mut(0, j).iter_mut() {
+                        *x = rng.digit(c.b_out + 1);
+                    }
+                }
+            } else {
+                garbage(r.data.as_mut_slice(), blk & 1);
+            }
+            guarded(|| {
+                let mut s = B::scratch(mref.vec_znx_big_normalize_tmp_bytes().max(mref.vec_znx_normalize_tmp_bytes()).max(mref.vec_znx_lsh_tmp_bytes()).max(mref.vec_znx_rsh_tmp_bytes()) + 64);
+                let sc = B::borrow(&mut s);
+                match c.op {
+                    NOp::Normalize => mref.vec_znx_normalize(&mut r, c.b_out, c.offset, 0, &a, c.b_in, 0, sc),
+                    NOp::NormalizeAssign => mref.vec_znx_normalize_assign(c.b_in, &mut r, 0, sc),
+                    NOp::Lsh => mref.vec_znx_lsh(c.b_in, k, &mut r, 0, &a, 0, sc),
+                    NOp::LshAssign => mref.vec_znx_lsh_assign(c.b_in, k, &mut r, 0, sc),
+                    NOp::LshAddInto => mref.vec_znx_lsh_add_into(c.b_in, k, &mut r, 0, &a, 0, sc),
+                    NOp::LshSub => mref.vec_znx_lsh_sub(c.b_in, k, &mut r, 0, &a, 0, sc),
+                    NOp::Rsh => mref.vec_znx_rsh(c.b_in, k, &mut r, 0, &a, 0, sc),
+                    NOp::RshAssign => mref.vec_znx_rsh_assign(c.b_in, k, &mut r, 0, sc),
+                    NOp::RshAddInto => mref.vec_znx_rsh_add_into(c.b_in, k, &mut r, 0, &a, 0, sc),
+                    NOp::RshSub => mref.vec_znx_rsh_sub(c.b_in, k, &mut r, 0, &a, 0, sc),
+                    NOp::BigNormalize => mref.vec_znx_big_normalize(&mut r, c.b_out, c.offset, 0, &abig.as_ref().unwrap().v, c.b_in, 0, sc),
+                    NOp::BigNormalizeAddAssign => mref.vec_znx_big_normalize_add_assign(&mut r, c.b_out, c.offset, 0, &abig.as_ref().unwrap().v, c.b_in, 0, sc),
+                    NOp::BigNormalizeSubAssign => mref.vec_znx_big_normalize_sub_assign(&mut r, c.b_out, c.offset, 0, &abig.as_ref().unwrap().v, c.b_in, 0, sc),
+                    NOp::BigNormalizeNegate => mref.vec_znx_big_normalize_negate(&mut r, c.b_out, c.offset, 0, &abig.as_ref().unwrap().v, c.b_in, 0, sc),
+                }
+            })?;
+            outs.push(r.data.to_vec());
+        }
+        Ok(outs)
+    }
+    let x = run_on::<B1>(c, seed);
+    let y = run_on::<B2>(c, seed);
+    rec.evals(2);
+    rec.distinct(fnv(format!("{:?}", c).as_bytes()));
+    rec.sample(|| serde_json::to_value(c).unwrap());
+    let pair = format!("{}|{}", B1::NAME, B2::NAME);
+    match (x, y) {
+        (Ok(a), Ok(b)) => {
+            if let Some(blk) = a.iter().zip(b.iter()).position(|(p, q)| p != q) {
+                rec.fail(json!({"op": format!("{:?}", c.op), "backend": pair, "kind": "backend_mismatch", "case": c, "inner": {"block": blk},
+                    "why": "result bytes differ between the two backends"}));
+            }
+            rec.outcome(fnv(&a.concat()));
+        }
+        (Err(_), Err(_)) => rec.add("both_panicked", 1),
+        (p, q) => rec.fail(json!({"op": format!("{:?}", c.op), "backend": pair, "kind": "panic_mismatch", "case": c, "panic": [p.err(), q.err()]})),
+    }
 }
 
 pub fn fam<B: Bk>(run: &mut Run)
